@@ -207,6 +207,10 @@ class Parsed(SubCheck):
     def size(self):
         return len(self.p)
 
+    def crosstalk_cases(self):
+        return [dict(root=rn, chain=list(ch), leaf=ln, reify=reify, doc=decorate(c03.build_doc(ra, ch, lt)))
+                for (rn, ra, ch, ln, lt) in c03.colliding_documents() for reify in (True, False)]
+
     def case(self, i):
         ri, ch, li, reify = self.p[i]
         return dict(root=c03.ROOTS[ri][0], chain=list(ch), leaf=c03.LEAVES[li][0], reify=reify,
